@@ -125,7 +125,8 @@ def c11_params(rng: random.Random, cell: Optional[dict] = None) -> dict:
     p['pierce_init_delay'] = xr.choice([0.0, 0.0, 0.0, 2.0, 6.0, 20.0, 45.0]) if p['indirect'] == 'pierce-fast' else 0.0
     # the peer pierces twice with the same ticket (two connections, same instant or a few ms apart)
     p['dup_pierce'] = xr.choice([None, None, None, None, 0.0, 0.0, 0.002]) if p['indirect'] in ('pierce-fast', 'pierce-slow') else None
-    for k in ('dup_pierce', 'my_listen', 'pierce_init_delay', 'omit_obf_fields'):
+    p['also_pierce'] = None
+    for k in ('dup_pierce', 'my_listen', 'pierce_init_delay', 'omit_obf_fields', 'also_pierce'):
         if cell and k in cell:
             p[k] = cell[k]
     return p
@@ -233,8 +234,17 @@ def run_c11_case(res: dict, params: dict, seed: Any, judge_c10: bool = False, ju
                 else:
                     await bob.pierce(msg)
             elif ind == 'cannot':
-                await asyncio.sleep(p['i_lat'])
+                if p.get('same_instant'):
+                    await yields(p.get('i_yields', 0))
+                else:
+                    await asyncio.sleep(p['i_lat'])
                 bob.cannot_report(msg)
+                if p.get('also_pierce') is not None:
+                    # a contradictory peer: it reports cannot-connect and pierces all the same, k loop steps later
+                    await yields(p['also_pierce'])
+                    w.pending_pierce[('bob', msg.ticket)] = (msg.typ, msg.username)
+                    obs['cannot_connect_and_pierce'] = obs.get('cannot_connect_and_pierce', 0) + 1
+                    await bob.pierce(msg)
             # nothing: silence
         bob.on_connect_to_peer = on_ctp
         if p['indirect'] == 'server-down':
@@ -299,6 +309,8 @@ def run_c11_case(res: dict, params: dict, seed: Any, judge_c10: bool = False, ju
         elif judge_c11:
             if outcome.startswith('other:'):
                 viol.append((f'c11:wrong-exception:{outcome[6:]}', {'params': p}))
+            elif not cancelled and p.get('also_pierce') is not None:
+                pass        # a peer that reports cannot-connect and pierces: either outcome is right, residue is judged
             elif not cancelled:
                 want = 'connection' if (direct_works or indirect_works) else 'PeerConnectionError'
                 if outcome != want:
